@@ -590,7 +590,12 @@ def run_plan(plan: dict) -> RunResult:
                     if resp_.get("status_code") != 418 or bytes(resp_.get("content") or b"") != f"preempted-{tag}".encode():
                         violate("C15/state/preempting-response-lost", tag=tag, status=resp_.get("status_code"))
                         break
-                    if cbs and stp["metadata"].get("cap_data_ser") != cbs[0]["state"]["metadata"].get("cap_data_ser"):
+                    def _cd(x):
+                        # (once the owning session is gone only the capability itself can still be attributed)
+                        if x is None or st["s"] not in closed:
+                            return x
+                        return tuple(v for k_, v in zip(x._fields, x) if k_ not in ("region_addr", "session_id"))
+                    if cbs and _cd(stp["metadata"].get("cap_data_ser")) != _cd(cbs[0]["state"]["metadata"].get("cap_data_ser")):
                         violate("C15/state/cap-data-changed", tag=tag, kind_="preempt",
                                 before=repr(cbs[0]["state"]["metadata"].get("cap_data_ser"))[:200],
                                 now=repr(stp["metadata"].get("cap_data_ser"))[:200])
